@@ -85,6 +85,13 @@ def runner(rep, tier, seed, replay):
                      ("(0 - 1.5) ^ 2147483648", "inf"), ("(0 - 1.5) ^ 2147483649", "-inf"), ("(0 - 0.5) ^ 2147483648", "0"), ("(0 - 2.0) ^ 31", "-2147483648"),
                      ("(0 - 2.0) ^ 32", "4294967296"), ("(0 - 1.0) ^ 9007199254740992", "1"), ("1.0 * (0 - 1) ^ 2147483650", "1"), ("(0 - 1.0) ^ (0 - 2147483649)", "-1")):
         cases.append({"line": ln, "expected": want, "toks": ln.split(), "mode": "float"})
+    # integer mode beyond 2^53: every literal and every intermediate value fits in 64 bits, so the result is the exact integer
+    # (an evaluator that routes literals through a double loses the low bits)
+    for ln, want in (("9007199254740993 + 0", "9007199254740993"), ("(9223372036854775806 - 9223372036854775805) * 7", "7"),
+                     ("0 - 9223372036854775807", "-9223372036854775807"), ("9007199254740993 - 9007199254740992", "1"),
+                     ("4611686018427387905 * 2 - 4611686018427387904 * 2", "2"), ("9223372036854775807 / 9223372036854775807", "1"),
+                     ("(4611686018427387904 + 4611686018427387903) - 9223372036854775806", "1")):
+        cases.append({"line": ln, "expected": want, "toks": ln.split(), "mode": "int"})
     for b in BOUNDARY:
         cases.append({"line": b, "expected": None, "toks": b.split(), "mode": "boundary"})
     strs = []
